@@ -811,6 +811,23 @@ func execS1(op string, a []string) string {
 			sb.WriteString(" " + s1hx(s))
 		}
 		sb.WriteString(" " + s1hx(ret))
+		// once more with the receiver being a member of the batch (first / last): every other element must still become its
+		// inverse and the receiver the product of the inverses
+		for _, k := range []int{0, len(l) - 1} {
+			if k < 0 || k >= len(l) {
+				continue
+			}
+			l2 := s1list(a)
+			r2 := l2[k].BatchInvert(l2)
+			if s1hx(r2) != s1hx(ret) {
+				return "alias-mismatch product " + s1hx(r2) + " " + s1hx(ret)
+			}
+			for j := range l2 {
+				if j != k && s1hx(l2[j]) != s1hx(l[j]) {
+					return "alias-mismatch element " + s1hx(l2[j]) + " " + s1hx(l[j])
+				}
+			}
+		}
 		return sb.String()
 	}
 	return "bad-op"
